@@ -102,7 +102,8 @@ def run_for(prop, tier, wd):
         consts = constants(kind, tier)
         cfgp = os.path.join(wd, "mc", "%s.cfg" % kind)
         write_cfg(cfgp, kind, consts, False)
-        rc, text, wall = run_tlc(cfgp, os.path.join(wd, "mc", kind + ".md"), 4 if tier == "quick" else 8, timeout)
+        rc, text, wall = run_tlc(cfgp, os.path.join(wd, "mc", kind + ".md"), 4 if tier == "quick" else 8, timeout,
+                                 extra=["-coverage", "1"])
         return kind, consts, rc, text, wall
 
     with ThreadPoolExecutor(max_workers=4 if tier == "quick" else 2) as ex:
@@ -115,6 +116,25 @@ def run_for(prop, tier, wd):
             res["states"] += run["states"]
             res["transitions"] += run["transitions"]
         run["complete"] = "Model checking completed. No error has been found." in text
+        # per-action coverage (distinct:generated); an applicable call that was never taken means the
+        # properties were not exercised for it
+        acts = {}
+        for mm in re.finditer(r"<(Do\w+) line .*? of module MCCap>: (\d+):(\d+)", text):
+            acts[mm.group(1)] = int(mm.group(3))
+        run["transitions_by_action"] = acts
+        need = ["DoInsert", "DoErase", "DoFind", "DoInsertRange", "DoEraseRange", "DoFindRange"]
+        if kind in ("tlru", "utlru", "utmap", "utset"):
+            need += ["DoClean", "DoTick"]
+        if kind == "lfuda":
+            need += ["DoAge", "DoTick"]
+        if kind == "utlru":
+            need += ["DoUttl", "DoClear"]
+        if kind == "utmap":
+            need += ["DoClear"]
+        if run["complete"] and acts:
+            never = [a for a in need if acts.get(a, 0) == 0]
+            if never:
+                res["infra"] = "vacuous model run for %s: actions never taken: %s" % (kind, never)
         res["runs"].append(run)
         if "is violated" in text or "Invariant" in text and "violated" in text:
             # a counterexample of the operational model against its declarative properties: the
